@@ -453,7 +453,7 @@ def finish(ctx, level_text_trusted, extra_cov=None):
 
 # --------------------------------------------------------------------------- generic differential tie
 def diff_tie(ctx, name, exe, args, runner, cases, oracle=None, nontrivial=None, bucket=None,
-             timeout=900, describe=None, env=None, alt_runners=()):
+             timeout=900, describe=None, env=None, alt_runners=(), search=None):
     """Run `cases` on the implementation driver and on the extracted model; compare line by line.
     oracle(case, impl_tokens) -> None | (key, description): the property itself as a predicate on the
     implementation's observable behaviour; used to decide whether a disagreement is a violation.
@@ -510,5 +510,34 @@ def diff_tie(ctx, name, exe, args, runner, cases, oracle=None, nontrivial=None, 
         elif nmis <= 3:
             ctx.add(Finding("broken", "broken:tie:" + name,
                             "correspondence %s: implementation and model disagree and the property oracle finds no violation in the implementation's output" % name, rep))
-    ctx.ties.append({"name": name, "cases": len(cases), "disagreements": nmis})
+    searched = 0
+    brk = [f for f in ctx.findings if f.kind == "broken" and f.key == "broken:tie:" + name]
+    if brk and search and oracle and not any(f.kind == "violation" for f in ctx.findings):
+        # search phase: the tie is broken and no failing input is known yet — explore the neighbourhood of the
+        # first disagreements on the implementation with the property oracle only
+        mutate, count = search
+        extra = []
+        for f in brk[:3]:
+            for _ in range(count):
+                extra.append(mutate(f.replay["case"], ctx.rng))
+        rc, lines, err = ctx.run_driver(exe, args, extra, timeout=timeout, env=env)
+        impl2 = list(lines)
+        guard = 0
+        while len(impl2) < len(extra) and guard < 200:
+            guard += 1
+            if not impl2 or not impl2[-1].endswith("HANG"):
+                impl2.append("CRASH rc=%s" % rc)
+            if len(impl2) >= len(extra):
+                break
+            rc, more, err = ctx.run_driver(exe, args, extra[len(impl2):], timeout=timeout, env=env)
+            impl2 += more
+        for c, ln in zip(extra, impl2):
+            searched += 1
+            viol = oracle(c, ln.split())
+            if viol:
+                ctx.add(Finding("violation", viol[0], "%s (found by the search phase after the tie broke): %s" % (name, viol[1]),
+                                {"tie": name, "case": c, "case_text": describe(c) if describe else None, "impl": ln,
+                                 "driver": os.path.basename(exe), "args": [str(a) for a in args]}))
+                break
+    ctx.ties.append({"name": name, "cases": len(cases), "disagreements": nmis, "search_cases": searched})
     return nmis
